@@ -8,4 +8,5 @@ CONSTANTS
   Mode <- M2
   Timed = {t1, t4}
   Kind = "qrw"
+  PeekUnlock = FALSE
 INVARIANTS WriterExclusive StateMatchesHolders AdmittedAfterLastUnlock FailedIsNoOp
